@@ -350,7 +350,13 @@ pub fn clicases(kind: &str, seed: u64, n: usize) -> Value {
                     Ok(o) => o,
                     Err(_) => continue,
                 };
-                if orc.engine_disagrees(&case.input) {
+                if orc.engine_disagrees(&case.input)
+                    || orc.word_boundary_context_dependent(
+                        &[case.pattern.clone()],
+                        &case.flags,
+                        &case.input,
+                    )
+                {
                     continue;
                 }
                 let lines = split_lines(&case.input, case.flags.term);
